@@ -202,7 +202,7 @@ PROPS["C14"] = {
 }
 
 # ---- T3: equivalence of the model with the translation regenerated from the source by tools/gotrans ---------
-TRANS_TRUSTED = "tie T3 = tools/gotrans: the listed Go functions / statement segments are translated to Lean on every run (Gws/Generated/Trans.lean) and the model functions are proved equal to the translation (TransEquiv.*); trusted: the translator and Gws/Trans/Prelude.lean (Go integer, slice, copy, encoding/binary semantics; slices as values, no aliasing); for internal/deque.go the deque dialect (tools/gotrans/deque.go, Gws/Generated/TransDeque.lean, Gws/Trans/DequePrelude.lean: a pointer into the slot array is the index of its slot, every indirection nil-checked)"
+TRANS_TRUSTED = "tie T3 = tools/gotrans: the listed Go functions / statement segments are translated to Lean on every run (Gws/Generated/Trans.lean) and the model functions are proved equal to the translation (TransEquiv.*); trusted: the translator and Gws/Trans/Prelude.lean (Go integer, slice, copy, encoding/binary semantics; slices as values, no aliasing); for internal/deque.go the deque dialect (tools/gotrans/deque.go, Gws/Generated/TransDeque.lean, Gws/Trans/DequePrelude.lean: a pointer into the slot array is the index of its slot, every indirection nil-checked), for the aggregator flateWriter of writefile.go the buffer-list dialect (tools/gotrans/fw.go, Gws/Generated/TransFW.lean, Gws/Trans/FWPrelude.lean)"
 _TF = ["TransEquiv.GetFIN_eq", "TransEquiv.GetRSV1_eq", "TransEquiv.GetRSV2_eq", "TransEquiv.GetRSV3_eq", "TransEquiv.GetOpcode_eq", "TransEquiv.GetMask_eq",
        "TransEquiv.GetLengthCode_eq", "TransEquiv.isDataFrame_eq"]
 _TR = ["TransEquiv.readMessage_header_eq", "TransEquiv.readControl_guards_eq"]
@@ -232,8 +232,8 @@ _TRANS = {
                                           "TransEquiv.serverDecide_requestChecks", "TransEquiv.WithHeader_eq", "TransEquiv.keyAndAccept_eq", "TransEquiv.WithSubProtocol_eq", "TransEquiv.deleteProtectedHeaders_eq"]),
     "C11": (["Gws.Props.TransHandshake"], ["TransEquiv.HttpHeaderContainsToken_eq", "TransEquiv.GetIntersectionElem_eq", "TransEquiv.InCollection_eq",
                                           "TransEquiv.checkHeaders_eq", "TransEquiv.getSubProtocol_eq", "TransEquiv.request_headers_eq", "TransEquiv.clientHandshake_eq_translated"]),
-    "C05": (["Gws.Props.TransFrame", "Gws.Props.TransClose", "Gws.Props.TransWriter", "Gws.Props.TransCompress", "Gws.Props.TransFile", "Gws.Props.TransSend"],
-            ["TransEquiv.SetLength_eq", "TransEquiv.GenerateHeader_eq", "TransEquiv.local_close_body_eq", "TransEquiv.genFrame_eq", "TransEquiv.stripTail_eq", "TransEquiv.compressData_eq",
+    "C05": (["Gws.Props.TransFrame", "Gws.Props.TransClose", "Gws.Props.TransWriter", "Gws.Props.TransCompress", "Gws.Props.TransFile", "Gws.Props.TransSend", "Gws.Props.TransFW"],
+            ["TransEquiv.FW.shouldCall_eq", "TransEquiv.FW.write_eq", "TransEquiv.FW.Write_eq", "TransEquiv.FW.Flush_eq", "TransEquiv.SetLength_eq", "TransEquiv.GenerateHeader_eq", "TransEquiv.local_close_body_eq", "TransEquiv.genFrame_eq", "TransEquiv.stripTail_eq", "TransEquiv.compressData_eq",
              "TransEquiv.flush_stripTail_eq", "TransEquiv.doWriteFile_frame_eq", "TransEquiv.doWrite_head_eq", "TransEquiv.broadcast_gate_eq"]),
     "C06": (["Gws.Props.TransClose", "Gws.Props.TransSend"], _TC + ["TransEquiv.doWrite_head_eq", "TransEquiv.broadcast_gate_eq"]),
     "C16": (["Gws.Props.TransClose", "Gws.Props.TransEmit"], ["TransEquiv.CheckEncoding_eq", "TransEquiv.emitClose_body_eq", "TransEquiv.emitMessage_eq"]),
